@@ -638,6 +638,14 @@ func checkC10(ctx *Ctx, c *Case) error {
 		if (u1 == nil) != (u2 == nil) {
 			return fmt.Errorf("proto.Unmarshal of an encoding whose value has initialisation state %v: generated %v, reference %v", e2, u1, u2)
 		}
+		// the same with DiscardUnknown: dropping unknown fields does not excuse a
+		// missing required field
+		du := proto.UnmarshalOptions{DiscardUnknown: true}
+		v1 := du.Unmarshal(unhex(c.Bytes), t.New())
+		v2 := du.Unmarshal(unhex(c.Bytes), t.NewD())
+		if (v1 == nil) != (v2 == nil) {
+			return fmt.Errorf("Unmarshal with DiscardUnknown of an encoding whose value has initialisation state %v: generated %v, reference %v", e2, v1, v2)
+		}
 		if e2 != nil {
 			ctx.Label("checkinit: required field unset somewhere")
 		}
